@@ -107,7 +107,7 @@ static void *iv_thread_handler(void *_thr)
 	struct iv_thread *thr = _thr;
 
 	pthr_setspecific(&iv_thread_key, thr);
-	thr->tid = iv_get_thread_id();
+	__atomic_store_n(&thr->tid, iv_get_thread_id(), __ATOMIC_RELAXED);
 
 	thr->start_routine(thr->arg);
 
@@ -202,6 +202,7 @@ void iv_thread_list_children(void)
 		struct iv_thread *thr;
 
 		thr = iv_list_entry(ilh, struct iv_thread, list);
-		fprintf(stderr, "%lu\t%s\n", thr->tid, thr->name);
+		fprintf(stderr, "%lu\t%s\n",
+			__atomic_load_n(&thr->tid, __ATOMIC_RELAXED), thr->name);
 	}
 }
